@@ -274,13 +274,124 @@ theorem C15_transports_agree (o : Outcome) (h : o.wf) (hx : o ≠ .status 8 none
 theorem C15_resource_exhausted_without_info :
     expGrpc (recvGrpc (.status 8 none)) = .permanent ∧ expHttp (recvHttp (.status 8 none)) = .retryable := by decide
 
+/-! ## the senders against any server -/
+
+/-- the HTTP exporter follows the spec tables for **every** status, `Retry-After` form and body -/
+theorem C15_expHttpX_matches_spec (r : HttpResp) : expHttpX r = specHttpX r := by
+  have hs := C15_gen_shape
+  unfold expHttpX specHttpX
+  rw [C15_http_table_total, hs.2.2.1, hs.2.2.2.1, hs.2.2.2.2.1]
+  by_cases h2 : 200 ≤ r.status ∧ r.status ≤ 299
+  · simp only [h2, and_self, if_true]
+    cases r.body <;> simp
+  · simp only [h2, if_false]
+    cases hr : specHttpRetryable r.status
+    · simp
+    · simp only [Bool.not_true, Bool.false_eq_true, if_false]
+      by_cases ht : r.status = 429 ∨ r.status = 503
+      · have : [429, 503].contains r.status = true := by
+          cases ht with
+          | inl h => simp [h]
+          | inr h => simp [h]
+        simp only [this, ht, if_true]
+        cases r.ra <;> rfl
+      · have : [429, 503].contains r.status = false := by
+          simp only [not_or] at ht
+          simp [ht.1, ht.2]
+        simp [this, ht]
+
+/-- the classification never depends on the body outside 2xx, nor on `Retry-After` outside 429/503 -/
+theorem C15_expHttpX_irrelevant_inputs (st : Nat) (ra ra' : RetryAfter) (b b' : SuccessBody) :
+    (¬ (200 ≤ st ∧ st ≤ 299) → expHttpX ⟨st, ra, b⟩ = expHttpX ⟨st, ra, b'⟩) ∧
+    (st ≠ 429 → st ≠ 503 → expHttpX ⟨st, ra, b⟩ = expHttpX ⟨st, ra', b⟩) := by
+  rw [C15_expHttpX_matches_spec, C15_expHttpX_matches_spec, C15_expHttpX_matches_spec]
+  constructor
+  · intro h; simp [specHttpX, h]
+  · intro h1 h2; simp [specHttpX, h1, h2]
+
+/-- partial success (or any decodable / ignorable 2xx body) is success -/
+theorem C15_partial_success_is_success (st : Nat) (ra : RetryAfter) (b : SuccessBody)
+    (h : 200 ≤ st ∧ st ≤ 299) (hb : b ≠ .undecodable) : expHttpX ⟨st, ra, b⟩ = .success := by
+  rw [C15_expHttpX_matches_spec]
+  simp [specHttpX, h, hb]
+
+theorem wrap64_id {x : Int} (h1 : -9223372036854775808 ≤ x) (h2 : x < 9223372036854775808) : wrap64 x = x := by
+  unfold wrap64
+  omega
+
+/-- **Retry-After honoured, exactly** for every delay-seconds value that fits a `time.Duration`
+(|s| ≤ 9 223 372 036 s ≈ 292 years), and for every HTTP-date; (partial: beyond that range
+`time.Duration(seconds)*time.Second` wraps — see `C15_retry_after_overflow_wraps`). -/
+theorem C15_retry_after_honoured_partial (st : Nat) (b : SuccessBody) (hst : st = 429 ∨ st = 503) :
+    (∀ s : Int, -9223372036 ≤ s → s ≤ 9223372036 → expHttpX ⟨st, .seconds s, b⟩ = .throttle (s * 1000000000)) ∧
+    (∀ d : Int, expHttpX ⟨st, .date d, b⟩ = .throttle d) ∧
+    expHttpX ⟨st, .absent, b⟩ = .retryable ∧ expHttpX ⟨st, .unusable, b⟩ = .retryable := by
+  have hns : ¬ (200 ≤ st ∧ st ≤ 299) := by cases hst <;> omega
+  have hre : specHttpRetryable st = true := by cases hst with
+    | inl h => simp [h, specHttpRetryable]
+    | inr h => simp [h, specHttpRetryable]
+  refine ⟨?_, ?_, ?_, ?_⟩
+  · intro s h1 h2
+    rw [C15_expHttpX_matches_spec]
+    simp only [specHttpX, hns, if_false, hre, Bool.not_true, Bool.false_eq_true, hst, if_true, nsPerSec]
+    rw [wrap64_id (by omega) (by omega)]
+    simp
+  all_goals
+    intros
+    rw [C15_expHttpX_matches_spec]
+    simp [specHttpX, hns, hre, hst]
+
+/-- the full statement (every integer) is false for the code as it is: a huge delay-seconds value wraps -/
+theorem C15_retry_after_overflow_wraps :
+    expHttpX ⟨503, .seconds 9223372037, .empty⟩ = .throttle (-9223372036709551616) := by decide
+
+/-- on the wires the real receiver produces the complete function agrees with `expHttp` -/
+theorem C15_expHttpX_extends (w : WireHttp) (b : SuccessBody) (hb : b ≠ .undecodable)
+    (hs : ∀ s, w.retryAfter = some s → s ≤ 9223372036) :
+    expHttpX ⟨w.status, (match w.retryAfter with | some s => .seconds s | none => .absent), b⟩ = (expHttp w).toI := by
+  have hg := C15_gen_shape
+  unfold expHttpX expHttp
+  by_cases h2 : OtlpTables.successLo ≤ w.status ∧ OtlpTables.successHi ≥ w.status
+  · have h2' : OtlpTables.successLo ≤ w.status ∧ w.status ≤ OtlpTables.successHi := h2
+    cases b <;> simp_all [Verdict.toI]
+  · have h2' : ¬ (OtlpTables.successLo ≤ w.status ∧ w.status ≤ OtlpTables.successHi) := h2
+    simp only [h2', if_false]
+    cases OtlpTables.httpRetryable.contains w.status
+    · simp [Verdict.toI]
+    · simp only [Bool.not_true, Bool.false_eq_true, if_false]
+      cases OtlpTables.expThrottleStatuses.contains w.status
+      · simp [Verdict.toI]
+      · simp only [if_true]
+        cases hra : w.retryAfter with
+        | none => simp [Verdict.toI]
+        | some s =>
+          have := hs s hra
+          simp only [Verdict.toI, nsPerSec, VerdictI.throttle.injEq]
+          rw [wrap64_id (by omega) (by omega)]
+          simp
+
+/-- the gRPC exporter on every code and every signed RetryInfo delay: retryability by the spec table, a
+non-zero delay (of either sign) is handed on unchanged -/
+theorem C15_expGrpcX_total (c : Nat) (ri : Option Int) : expGrpcX c ri = specGrpcX c ri := by
+  unfold specGrpcX
+  unfold expGrpcX
+  rw [C15_grpc_table_total]
+  by_cases h0 : c = 0
+  · simp [h0]
+  · simp only [h0, if_false, Option.isSome_map]
+    cases specGrpcRetryable c ri.isSome
+    · simp
+    · cases ri with
+      | none => simp
+      | some d => by_cases hd : d = 0 <;> simp [hd]
+
 /-! ## requests that must not reach the consumer -/
 
 /-- **Client errors, HTTP.** Unauthenticated, badly encoded, unknown path, wrong method, unsupported media
 type, undecodable body: a 4xx status, the consumer is not invoked, the sender will not retry. -/
 theorem C15_client_errors_http (r : HttpReq) (sink : Outcome)
     (h : r.authOk = some false ∨ r.encodingOk = false ∨ r.pathKnown = false ∨ r.isPost = false ∨
-         r.ctype = .other ∨ r.bodyDecodes = false) :
+         r.ctype = .other ∨ r.bodyReads = false ∨ r.bodyDecodes = false) :
     400 ≤ (httpFront r sink).1.status ∧ (httpFront r sink).1.status ≤ 499 ∧ (httpFront r sink).2 = 0 ∧
       expHttp (httpFront r sink).1 = .permanent := by
   have hs := C15_gen_shape
@@ -301,16 +412,20 @@ theorem C15_client_errors_http (r : HttpReq) (sink : Outcome)
         · by_cases h5 : r.ctype = .other
           · simp only [Bool.not_eq_false] at h2 h3 h4
             simp only [h1, h2, h3, h4, h5, Bool.not_true, Bool.false_eq_true, if_false, if_true]; decide
-          · have h6 : r.bodyDecodes = false := by
-              rcases h with h | h | h | h | h | h
-              · exact absurd h h1
-              · exact absurd h h2
-              · exact absurd h h3
-              · exact absurd h h4
-              · exact absurd h h5
-              · exact h
-            simp only [Bool.not_eq_false] at h2 h3 h4
-            simp only [h1, h2, h3, h4, h5, h6, Bool.not_true, Bool.not_false, Bool.false_eq_true, if_false, if_true]; decide
+          · by_cases h7 : r.bodyReads = false
+            · simp only [Bool.not_eq_false] at h2 h3 h4
+              simp only [h1, h2, h3, h4, h5, h7, Bool.not_true, Bool.not_false, Bool.false_eq_true, if_false, if_true]; decide
+            · have h6 : r.bodyDecodes = false := by
+                rcases h with h | h | h | h | h | h | h
+                · exact absurd h h1
+                · exact absurd h h2
+                · exact absurd h h3
+                · exact absurd h h4
+                · exact absurd h h5
+                · exact absurd h h7
+                · exact h
+              simp only [Bool.not_eq_false] at h2 h3 h4 h7
+              simp only [h1, h2, h3, h4, h5, h6, h7, Bool.not_true, Bool.not_false, Bool.false_eq_true, if_false, if_true]; decide
 
 /-- **Client errors, gRPC** (partial: an undecodable frame is answered by grpc-go itself with `Internal`,
 which is non-retryable but not a "client error" code; an unauthenticated call gets `Unauthenticated`). -/
@@ -331,11 +446,11 @@ theorem C15_client_errors_grpc_partial (r : GrpcReq) (sink : Outcome)
 /-- **Empty acknowledgement.** A well-formed request with no items is acknowledged as success without
 invoking the consumer, whatever the consumer would have answered — on both transports. -/
 theorem C15_empty_ack (sink : Outcome) (auth : Option Bool) (ct : CType) (ha : auth ≠ some false) (hct : ct ≠ .other) :
-    httpFront ⟨auth, true, true, true, ct, true, 0⟩ sink = (⟨200, none, 0⟩, 0) ∧
-    expHttp (httpFront ⟨auth, true, true, true, ct, true, 0⟩ sink).1 = .success ∧
+    httpFront ⟨auth, true, true, true, ct, true, true, 0⟩ sink = (⟨200, none, 0⟩, 0) ∧
+    expHttp (httpFront ⟨auth, true, true, true, ct, true, true, 0⟩ sink).1 = .success ∧
     grpcFront ⟨auth, true, 0⟩ sink = (⟨0, none⟩, 0) ∧
     expGrpc (grpcFront ⟨auth, true, 0⟩ sink).1 = .success := by
-  have e1 : httpFront ⟨auth, true, true, true, ct, true, 0⟩ sink = (⟨200, none, 0⟩, 0) := by
+  have e1 : httpFront ⟨auth, true, true, true, ct, true, true, 0⟩ sink = (⟨200, none, 0⟩, 0) := by
     simp [httpFront, ha, hct, receive, recvHttp, recvStatus]
   have e2 : grpcFront ⟨auth, true, 0⟩ sink = (⟨0, none⟩, 0) := by
     simp [grpcFront, ha, receive, recvGrpc, recvStatus]
@@ -346,7 +461,7 @@ theorem C15_empty_ack (sink : Outcome) (auth : Option Bool) (ct : CType) (ha : a
 /-- A well-formed request with items invokes the consumer exactly once and reports its outcome. -/
 theorem C15_consumer_once (sink : Outcome) (auth : Option Bool) (ct : CType) (n : Nat)
     (ha : auth ≠ some false) (hct : ct ≠ .other) (hn : n ≠ 0) :
-    httpFront ⟨auth, true, true, true, ct, true, n⟩ sink = (recvHttp sink, 1) ∧
+    httpFront ⟨auth, true, true, true, ct, true, true, n⟩ sink = (recvHttp sink, 1) ∧
     grpcFront ⟨auth, true, n⟩ sink = (recvGrpc sink, 1) := by
   constructor
   · simp [httpFront, ha, hct, receive, hn]
@@ -425,7 +540,7 @@ example : expHttp (recvHttp (.status 14 (some 500000000))) = .throttle 100000000
 example : expGrpc (recvGrpc (.status 14 (some 500000000))) = .throttle 500000000 := by decide
 example : expHttp (recvHttp (.status 3 (some 500000000))) = .permanent := by decide
 example : expHttp (recvHttp (.status 99 none)) = .permanent ∧ (recvHttp (.status 99 none)).status = 500 := by decide
-example : (httpFront ⟨some false, true, true, true, .other, true, 3⟩ (.plain false)).1.status = 401 := by decide
+example : (httpFront ⟨some false, true, true, true, .other, true, true, 3⟩ (.plain false)).1.status = 401 := by decide
 example : hopCheck ⟨.http, 2, .status 14 (some 500000000), 14, 503, some 0, .throttle 0, 1, true, false⟩
     = some "C15/http/retry-after-truncated" := by decide
 example : hopCheck ⟨.http, 2, .status 14 (some 500000000), 14, 503, some 1, .throttle 1000000000, 1, true, false⟩ = none := by decide
